@@ -83,6 +83,49 @@ Proof.
     + rewrite Eb. cbn [negb andb]. destruct (negb (c =? SP)); now rewrite IH.
 Qed.
 
+(* flattening twice is flattening once: a text that was flattened by one layer (the cron or YAML
+   library's wrapper) and again by the next is what one flattening gives *)
+Theorem one_line_idem : forall s, one_line (one_line s) = one_line s.
+Proof. intros s. apply one_line_id, one_line_no_break. Qed.
+
+(* the text never grows, and it shrinks only by the LF of a CR LF pair *)
+Theorem one_line_length : forall s, (length (one_line s) <= length s)%nat.
+Proof.
+  apply one_line_ind_principle; [cbn; lia|].
+  intros c rest IH IH2. cbn [one_line].
+  destruct (c =? CR).
+  - destruct rest as [|d rest']; [cbn; lia|].
+    destruct (d =? LF); cbn [length] in *; [specialize (IH2 d rest' eq_refl)|]; lia.
+  - destruct (is_break c); cbn [length]; lia.
+Qed.
+
+(* pieces put together: unless the cut falls inside a CR LF pair, flattening the concatenation is
+   concatenating the flattenings (fmt's %s of two library texts next to each other) *)
+Theorem one_line_app : forall a b,
+  (forall a', a = a' ++ [CR] -> forall b', b = LF :: b' -> False) ->
+  one_line (a ++ b) = one_line a ++ one_line b.
+Proof.
+  intros a; pattern a; revert a. apply one_line_ind_principle; [reflexivity|].
+  intros c rest IH IH2 b Hcut. cbn [app one_line].
+  destruct (c =? CR) eqn:Ec.
+  - apply N.eqb_eq in Ec. subst c. destruct rest as [|d rest'].
+    + cbn [app]. destruct b as [|d b']; [reflexivity|].
+      destruct (d =? LF) eqn:Ed; [|reflexivity].
+      apply N.eqb_eq in Ed. subst d. exfalso. exact (Hcut [] eq_refl b' eq_refl).
+    + cbn [app]. destruct (d =? LF).
+      * cbn [app]. f_equal. refine (IH2 d rest' eq_refl b _).
+        intros a' Ha b' Hb. subst. exact (Hcut (CR :: d :: a') eq_refl b' eq_refl).
+      * cbn [app]. f_equal. change (d :: rest' ++ b) with ((d :: rest') ++ b). refine (IH b _).
+        intros a' Ha b' Hb. subst. refine (Hcut (CR :: a') _ b' eq_refl). cbn [app]. now rewrite Ha.
+  - assert (one_line (rest ++ b) = one_line rest ++ one_line b) as E.
+    { refine (IH b _). intros a' Ha b' Hb. subst. exact (Hcut (c :: a') eq_refl b' eq_refl). }
+    destruct (is_break c); cbn [app]; now rewrite E.
+Qed.
+
+(* and inside a CR LF pair the concatenation is one space shorter: the hypothesis above is needed *)
+Theorem one_line_app_cut_refuted : exists a b, one_line (a ++ b) <> one_line a ++ one_line b.
+Proof. exists [CR], [LF]. cbv. discriminate. Qed.
+
 (* the old flattening left CR (and NEL, LS, PS) in the message *)
 Theorem one_line_old_refuted : exists s, existsb is_break (one_line_old s) = true.
 Proof. exists [64; 120; CR; 121]. reflexivity. Qed.
